@@ -32,7 +32,7 @@ BM = 'ombott.request_pkg.body_mixin'
 
 def check(P, R):
     R.rule('C07.a', 'upload window never reads outside its part', floor=5)
-    R.rule('C07.b', 'header parameters tokenised with quoted strings atomic', floor=1)
+    R.rule('C07.b', 'header parameters tokenised with quoted strings atomic', floor=2)
     R.rule('C07.c', 'fields and files routed and collected in order', floor=7)
     R.rule('C07.d', 'text and headers decoded from exactly their section', floor=2)
     R.rule('C07.e', 'scanner state does not leak between parts', floor=6)
@@ -129,6 +129,31 @@ def check(P, R):
          f'the tokenizer stops at the first ";" or "=" even inside a double-quoted value: name="a;b" is read as {got.get("name")!r}, '
          f'filename="x=y;z.txt" as {got.get("filename")!r}' + ('' if has_quote_alt else ' (the pattern has no alternative for a quoted string)'),
          why='field names and file names containing semicolons and equals signs must round-trip')
+
+    ph = P.func(f'{MP}:FieldStorage.parse_header')
+    stores = [st for st in walk_shallow(ph.node) if isinstance(st, ast.Assign) and any(isinstance(t, ast.Subscript) for t in st.targets)]
+    R.require(stores, 'parse_header: option store not found')
+    for st in stores:
+        sn = ph.cfg.node_of_stmt(st)[0]
+        cl = list(ph.rd.closure_nodes(st.value, sn))
+        # follow one level of package helper
+        for c in [x for x in cl if isinstance(x, ast.Call)]:
+            d = dotted(c.func) or ''
+            tgt = None
+            if d.startswith(('cls.', 'self.')):
+                tgt = P.find_method(ph.owner_cls, d.split('.')[1])
+            else:
+                r_ = P.resolve_name(ph.module, d) if d else None
+                tgt = r_[1] if r_ and r_[0] == 'func' else None
+            if tgt is not None:
+                cl += [y for y in ast.walk(tgt.node)]
+        rewrites = [x for x in cl if isinstance(x, ast.Call) and call_attr(x) in ('replace', 'translate', 'sub', 'decode', 'encode', 'unquote')]
+        strips = [x for x in cl if isinstance(x, ast.Call) and call_attr(x) == 'strip' and x.args and is_const(x.args[0], '"')]
+        ok = not rewrites
+        R.ob('C07.b', ph, st, ok, text='a quoted parameter value only loses its surrounding quotes', detail='' if ok else
+             f'the value is rewritten by `{short(rewrites[0])}` (e.g. quoted-pair unescaping): clients send backslashes raw, so a field or file name '
+             f'containing "\\\\" comes back changed',
+             why='names containing backslashes, semicolons, equals signs round-trip exactly', key_extra='unquote')
 
     # ---- c
     po = P.func(f'{BM}:BodyMixin.POST')
@@ -262,6 +287,7 @@ def check(P, R):
     consts = c06.module_bytes_consts(P)
     c06.check_end_headers(P, sub, consts)
     check_refuted_window(P, R)
+    c06.check_extra_state(P, sub, 'C07.e', 'C07.e')
 
 
 def check_refuted_window(P, R):
